@@ -1,6 +1,7 @@
 #include "pch.h"
 
 #include "parser/parser.h"
+#include "verif_hook.h"
 
 void Parser::advance() {
     if (++idx < tokens->size()) currentToken = (*tokens)[idx];
@@ -49,6 +50,11 @@ PSC::Block *Parser::parse() {
 }
 
 PSC::Block *Parser::parseBlock(BlockType blockType) {
+#ifdef PSEUDOENGINE2_VERIF
+    verif::DepthGuard verifNest(verif::budget().usedNest);
+    if (verif::budget().usedNest > verif::budget().nest)
+        throw PSC::SyntaxError(*currentToken, "VERIF budget exhausted: nesting");
+#endif
     PSC::Block *block;
     if (blockType == BlockType::MAIN) block = new PSC::MainBlock();
     else block = new PSC::Block();
